@@ -393,6 +393,10 @@ func (l *PartitionLog) uploadFlush(ctx context.Context, artifact *SegmentArtifac
 	})
 	if err := g.Wait(); err != nil {
 		l.mu.Lock()
+		// The drained batches already own offsets and other producers may be
+		// waiting in Flush for them to become durable: put them back so the next
+		// flush uploads them (under the same segment key) instead of dropping them.
+		l.buffer.Requeue(l.flushingBatches)
 		l.flushing = false
 		l.flushingBatches = nil
 		l.flushCond.Broadcast()
